@@ -337,6 +337,7 @@ func extractFacts(args []string) {
 
 	extractFactsC14(o, *repo)
 	extractFactsC19(o, *repo)
+	extractFactsC08(o, *repo)
 
 	var b strings.Builder
 	b.WriteString("/- GENERATED by `harness extract` from the Go sources of /repo on every run of bin/check. Do not edit. -/\n")
